@@ -233,7 +233,7 @@ def gen_layer_cfg(rng, D, equivariant_domain=True, allow_stride=False, group="B"
     from .ref import conv as rconv
 
     for _ in range(100):
-        M = int([3, 3, 3, 2, 5][int(rng.integers(5))]) if D == 2 else int([3, 3, 2][int(rng.integers(3))])
+        M = int([3, 3, 3, 2, 5, 1][int(rng.integers(6))]) if D == 2 else int([3, 3, 2, 1][int(rng.integers(4))])
         kmax_t = 2 if D == 2 else 1
         if M == 5:
             kmax_t = 1
